@@ -246,14 +246,15 @@ def run_case(case, drv):
         pool_before = [list(r) for r in o.routes]
         # check_route on a copy, then add_route on another copy (both convert names in place)
         r1, r2 = list(route), list(route)
-        if all(isinstance(x, int) for x in route) and route:
-            # an index route may be handed over as any node sequence: list, tuple or numpy array
+        if route and (all(isinstance(x, int) for x in route) or all(isinstance(x, str) for x in route) or (idx + len(route)) % 3 == 1):
+            # a route (indices, names or mixed) may be handed over as any node sequence: list, tuple or, when its entries are of one
+            # kind, numpy array
             kind = ["list", "tuple", "array"][(idx + len(route)) % 3]
             if kind == "tuple":
                 r1, r2 = tuple(route), tuple(route)
             elif kind == "array":
                 r1, r2 = np.array(route), np.array(route)
-            res.features.append(f"route-container:{kind}")
+            res.features.append(f"route-container:{kind}:{'names' if any(isinstance(x, str) for x in route) else 'indices'}")
         try:
             feas, cost, visits = o.check_route(r1)
             chk = f"ok:{1 if feas else 0}:{fs(F(cost))}"
